@@ -73,6 +73,8 @@ func load(c Case) loaded {
 var sentinels = [][]byte{
 	[]byte("<167>1 2022-08-15T03:48:20.154+03:00 basic-1 appServ/foo.com 51629 cron.log:123e4567-e89b-12d3-a456-426614174000 - [Initializer] - Creating data engines uid=1000"),
 	[]byte("<166>1 2022-08-15T03:48:33.760+03:00 basic-1 appServ/foo.com 51629 access.log - GET /cronlog ip=1.2.3.4 user bob@example.com"),
+	// escape sequences: the unescape step depends on a per-record flag that lives in a recycled record object
+	[]byte(`<163>1 2022-08-15T03:48:34.001+03:00 basic-1 appServ/foo.com 51629 main.log - Request failed:\n\tcode=500 reason=\"x\" path=C:\\tmp`),
 }
 
 func counters(sp *vh.SyncPipeline) (float64, float64) {
@@ -219,7 +221,7 @@ func enumKnown(yield func(Case) bool) {
 func TestC07Pipeline(t *testing.T) {
 	vh.Run(t, vh.Spec[Case]{
 		Name: "pipeline", Gen: gen, Run: runCase, Quick: 6000, Thorough: 60000, Enum: enumKnown, EnumOnlyShard0: true,
-		Rule: "hostile inputs (raw bytes; valid headers with each token replaced by empty/NIL/'<'/invalid UTF-8/embedded newline/short timestamps; mutated PRI and version; truncated lines; one token or the whole record padded to 0,1,31-33,1023-1025,65535/6,MaxMessage±1,MaxRecord±1,2x and 4x MaxRecord bytes with ASCII, multi-byte and invalid bytes) presented as records to the synchronous parse->extract->metric keys->transform->serialize->pack path under the sample configuration and generated configurations, at scaled (300/2000/70000 B) and production (1 MiB) limits; oracle = no panic or memory fault, input counters grow by exactly one record and len(input) bytes, and two well-formed sentinel records processed right after each bad input give byte-identical output to a fresh pipeline; non-trivial = input >=32 bytes starting with '<' (reaches the parser) or longer than MaxRecordBytes",
+		Rule: "hostile inputs (raw bytes; valid headers with each token replaced by empty/NIL/'<'/invalid UTF-8/embedded newline/short timestamps; mutated PRI and version; truncated lines; one token or the whole record padded to 0,1,31-33,1023-1025,65535/6,MaxMessage±1,MaxRecord±1,2x and 4x MaxRecord bytes with ASCII, multi-byte and invalid bytes) presented as records to the synchronous parse->extract->metric keys->transform->serialize->pack path under the sample configuration and generated configurations, at scaled (300/2000/70000 B) and production (1 MiB) limits; oracle = no panic or memory fault, input counters grow by exactly one record and len(input) bytes, and three well-formed sentinel records (one with escape sequences) processed right after each bad input give byte-identical output to a fresh pipeline; non-trivial = input >=32 bytes starting with '<' (reaches the parser) or longer than MaxRecordBytes",
 	})
 }
 
